@@ -20,6 +20,9 @@ func (c03) ID() string { return "C03" }
 func (c03) Gen(r *simrt.Rand, idx int, tier string) *Case {
 	g := DefaultGen()
 	g.Prices = "tree"
+	if idx%7 == 5 {
+		g.PNegPrice = 0.1
+	}
 	g.MaxCom = 4
 	g.MaxTxn = 20
 	g.MaxSpan = 400
